@@ -21,6 +21,7 @@ package yang
 import (
 	"fmt"
 	"sort"
+	"strings"
 	"sync"
 )
 
@@ -280,6 +281,13 @@ func (ms *Modules) FindModule(n Node) *Module {
 	}
 	if n := m[name]; n != nil {
 		return n
+	}
+
+	// The argument of an import or include statement is a module name, never
+	// a path: do not let it name an arbitrary file (Read treats a name with
+	// a slash as the path of the file to read).
+	if strings.ContainsAny(rev, "/\\") {
+		return nil
 	}
 
 	// Try to read first a module by revision
